@@ -306,7 +306,7 @@ var checks = map[string]Check{
 		Jobs: func(tier string) []Job {
 			d := "2"
 			if tier == "thorough" {
-				d = "3"
+				d = "4"
 			}
 			var js []Job
 			for _, k := range []string{"message", "args", "socket", "ctx"} {
@@ -346,15 +346,18 @@ var checks = map[string]Check{
 	},
 	"C15": {
 		Level:       "model_checking",
-		Rule:        "explicit enumeration of all histories up to depth 2 (quick) / 3 over 14 operations {ok call, 7 failure probes, proxied call with backend error, proxied call/push with backend down, secure key mismatch, auth reject, overload reject}; after each history every failure probe is repeated and its (code,msg,cause) compared with the triple observed before the history in the same pristine-restored process, and every predefined status is compared field by field",
+		Rule:        "explicit enumeration of all histories up to depth 2 (quick) / 4 over 18 operations {ok call, 7 failure probes, proxied call with backend error, proxied call/push with backend down, secure key mismatch, auth reject, overload reject, pending call cut by a corrupt frame, unknown-route and OK replies whose write fails, push whose write fails}; after each history every failure probe is repeated and its (code,msg,cause) compared with the triple observed before the history in the same pristine-restored process, and every predefined status is compared field by field",
 		Assumptions: append([]string{"the predefined statuses are restored to their pristine values at the start of every execution (they are process-global), so every history starts from the documented state"}, baseAssumptions...),
 		Jobs: func(tier string) []Job {
 			d := "2"
 			if tier == "thorough" {
-				d = "3"
+				d = "4"
 			}
 			j := sched("c15", "depth="+d, 0, 4)
 			j.EnvOnly = true
+			if tier == "thorough" {
+				j.Shards = 16
+			}
 			return []Job{j}
 		},
 	},
@@ -414,7 +417,7 @@ var checks = map[string]Check{
 	},
 	"C19": {
 		Level:       "model_checking",
-		Rule:        "full product (4320 configurations) {call,push} x {method served by the backend, served nowhere} x caller codec {json,plain,protobuf} x 4 body byte strings x 5 request-metadata sets (duplicate key, real-ip present/absent) x 6 backend statuses x backend failure {none, before, during forwarding} on a live client -> proxy -> backend chain, compared with the same request sent directly to an identical backend (metamorphic oracle: body bytes, status triple, reply metadata one value per key, reply codec, backend invocation count and metadata view, real-ip injected iff absent, 502 on backend failure); plus every sequence of 4 (quick) / 5 calls and pushes with empty, short and long bodies through one proxy, each compared with the direct call and with what the backend received",
+		Rule:        "full product (4320 configurations) {call,push} x {method served by the backend, served nowhere} x caller codec {json,plain,protobuf} x 4 body byte strings x 5 request-metadata sets (duplicate key, real-ip present/absent) x 6 backend statuses x backend failure {none, before, during forwarding} on a live client -> proxy -> backend chain, compared with the same request sent directly to an identical backend (metamorphic oracle: body bytes, status triple, reply metadata one value per key, reply codec, backend invocation count and metadata view, real-ip injected iff absent, 502 on backend failure); plus every sequence of 4 (quick) / 6 calls and pushes with empty, short and long bodies through one proxy, each compared with the direct call and with what the backend received",
 		Assumptions: append([]string{"backend statuses in the reserved connection-class range 100..199 are outside the alphabet (the plugin documents rewriting them to 502)", "quick tier: deterministic default schedule per configuration; thorough: all non-preemptive schedules within a time budget"}, baseAssumptions...),
 		Jobs: func(tier string) []Job {
 			j := sched("c19", "", 0, 8)
@@ -425,7 +428,7 @@ var checks = map[string]Check{
 			if tier == "thorough" {
 				k := sched("c19", "", 0, 16)
 				k.Budget = 900
-				sq.Params = "depth=5"
+				sq.Params = "depth=6"
 				sq.Shards = 8
 				return []Job{j, sq, k}
 			}
